@@ -40,6 +40,21 @@ def run(chk):
             f.pop("min depth", None)
             f["max depth"] = 3e5
             wj["features"] = [f]
+        if wi % 3 == 1:
+            # a single plume with the deflected random grains model: fixed and random sizes, normalised and not
+            from wbgen import Gen
+            g = Gen(rng)
+            f = g.plume("solo", sph)
+            gm = g.random_grains_model(0, 1e5, kinds=("random uniform distribution deflected",))
+            gm["compositions"] = [0, 1]
+            gm["grain sizes"] = [round(rng.uniform(0.05, 1.5), 3), -1]
+            gm["normalize grain sizes"] = [True, rng.random() < 0.5]
+            gm["deflections"] = [rng.choice([1.0, 0.3, 0.01]), rng.choice([1.0, 0.3])]
+            gm["basis rotation matrices"] = [gm["basis rotation matrices"][0], gm["basis rotation matrices"][0]]
+            gm.pop("max depth", None)
+            f["grains models"] = [gm]
+            f["min depth"] = 0.0
+            wj["features"] = [f]
         seed = rng.choice([1, 7, 1000, rng.randrange(1, 1 << 30)])
         if rng.random() < 0.4:
             wj["random number seed"] = rng.choice([0, 3, 424242])
@@ -54,6 +69,8 @@ def run(chk):
         for qi in range(25):
             pos, d = inside_query(rng, wj, sph) if rng.random() < 0.8 else query3d(rng, wj, sph)
             ps = prop_list(rng, maxlen=4, allow_vel=False)
+            if wi % 3 == 1:
+                ps.append([3, qi % 2, rng.choice([2, 3])])
             if rng.random() < 0.6:
                 ps.append([3, rng.randrange(4), rng.choice([1, 2, 3])])
             if rng.random() < 0.5:
